@@ -1188,6 +1188,19 @@ pub fn run_case(line: &str, run_queries: bool) -> Outcome {
                     }
                 }
                 seen.insert(sql_a.clone(), da.clone());
+                // physical operators of the chosen plans: op.<Name> = forms whose plan holds the operator
+                for (_, d) in &digs {
+                    let mut names: BTreeSet<String> = BTreeSet::new();
+                    for part in d.split(',') {
+                        let name: String = part.trim_start_matches(|c: char| c.is_ascii_digit()).chars().take_while(|c| c.is_ascii_alphanumeric()).collect();
+                        if !name.is_empty() {
+                            names.insert(name);
+                        }
+                    }
+                    for n in names {
+                        bump(&format!("op.{}", n), 1);
+                    }
+                }
                 for (_, d) in &digs {
                     if d.contains("IndexScan") {
                         bump("uses.index-scan", 1);
@@ -3406,7 +3419,115 @@ fn gen_chain_case(rng: &mut Rng) -> (String, BTreeSet<String>) {
     (show_case(&db, &[], &ops), tags)
 }
 
+/// Family "equi-joins where the operators' costs cross" (tag fam.window).  Two tables without indexes whose sizes lie
+/// where, once ANALYZE has run, nested loop, hash join and merge join cost about the same — 11-14 narrow rows each,
+/// 5 × 21-37, 8 × 13-30, or 12-30 rows with a TEXT column of 290-400 bytes — so that a small change of the cost model
+/// changes the operator.  NULL keys and duplicates on both sides; RIGHT / FULL mostly; the query (ids and keys) runs
+/// before ANALYZE (default statistics: merge join), after it, and after a further INSERT; forms a, c, f, g.
+fn gen_window_case(rng: &mut Rng) -> (String, BTreeSet<String>) {
+    let mut tags: BTreeSet<String> = BTreeSet::new();
+    let mut tag = |t: &str| {
+        tags.insert(t.to_string());
+    };
+    tag("fam.window");
+    tag("shape.few-relations");
+    let wide = rng.chance(1, 5);
+    let (n0, n1) = if wide {
+        tag("window.wide-rows");
+        (rng.range(12, 30) as usize, rng.range(12, 30) as usize)
+    } else {
+        match rng.below(10) {
+            0..=5 => {
+                tag("window.11-14");
+                (rng.range(11, 14) as usize, rng.range(11, 14) as usize)
+            }
+            6 | 7 => {
+                tag("window.5x21-37");
+                let (a, b) = (5usize, rng.range(21, 37) as usize);
+                if rng.chance(1, 2) { (a, b) } else { (b, a) }
+            }
+            _ => {
+                tag("window.8x13-30");
+                let (a, b) = (8usize, rng.range(13, 30) as usize);
+                if rng.chance(1, 2) { (a, b) } else { (b, a) }
+            }
+        }
+    };
+    let dom = rng.range(3, 7) as u64;
+    let two_keys = rng.chance(1, 4);
+    let key_ty = if rng.chance(1, 8) { Ty::BigInt } else { Ty::Int };
+    let mut db: Vec<Table> = Vec::new();
+    for n in [n0, n1] {
+        // id, key [, second key] [, wide text]
+        let mut tys = vec![Ty::Int, key_ty];
+        if two_keys {
+            tys.push(Ty::Int);
+        }
+        if wide {
+            tys.push(Ty::Text);
+        }
+        let rows: Vec<Vec<Val>> = (0..n)
+            .map(|i| {
+                tys.iter()
+                    .enumerate()
+                    .map(|(c, t)| {
+                        if c == 0 {
+                            Val::Int(i as i128 + 1)
+                        } else if *t == Ty::Text {
+                            let len = rng.range(290, 400) as usize;
+                            Val::Text((0..len).map(|k| b'a' + ((i + k) % 26) as u8).collect())
+                        } else if rng.chance(1, 4) {
+                            Val::Null
+                        } else {
+                            Val::Int(rng.below(dom) as i128)
+                        }
+                    })
+                    .collect()
+            })
+            .collect();
+        db.push(Table { tys, rows });
+    }
+    let w0 = db[0].tys.len();
+    let eq = |rng: &mut Rng, l: usize, r: usize| if rng.chance(1, 4) { cmp("eq", E::Col(r), E::Col(l)) } else { cmp("eq", E::Col(l), E::Col(r)) };
+    let mut cs = vec![eq(rng, 1, w0 + 1)];
+    if two_keys {
+        tag("join.equi.2keys");
+        cs.push(eq(rng, 2, w0 + 2));
+    }
+    let kind = *rng.pick(&["right", "right", "right", "right", "full", "full", "full", "full", "left", "inner"]);
+    tag(&format!("window.{}", kind));
+    tag(&format!("join.{}", kind));
+    tag("join.equi");
+    tag("q.join2");
+    let from = From::Join(kind, b2(From::Table(0)), b2(From::Table(1)), conj(cs));
+    let mut q = Select { distinct: false, from, where_: None, group_by: vec![], aggs: vec![], items: None, order_by: vec![], limit: None, offset: None, having: None };
+    if rng.chance(1, 8) {
+        tag("q.agg");
+        q.aggs.push(super::sql::Agg { f: "cnt*", arg: None });
+    } else {
+        q.items = Some(vec![E::Col(0), E::Col(1), E::Col(w0), E::Col(w0 + 1)]);
+    }
+    let mut ops: Vec<Op> = Vec::new();
+    ops.push(Op::Stmt(Stmt::Select(q.clone())));
+    tag("q.around-analyze");
+    ops.push(Op::Analyze(1000, 100000));
+    ops.push(Op::Stmt(Stmt::Select(q.clone())));
+    if !wide && rng.chance(1, 3) {
+        tag("q.around-dml");
+        let t = rng.below(2) as usize;
+        let n = if t == 0 { n0 } else { n1 };
+        let row: Vec<E> = db[t].tys.iter().enumerate().map(|(c, _)| if c == 0 { lit_i(n as i128 + 1) } else if rng.chance(1, 3) { E::Lit(Val::Null) } else { lit_i(rng.below(dom) as i128) }).collect();
+        ops.push(Op::Stmt(Stmt::Insert(t, vec![row])));
+        ops.push(Op::Stmt(Stmt::Select(q)));
+    }
+    drop(tag);
+    (show_case(&db, &[], &ops), tags)
+}
+
 fn gen_case(rng: &mut Rng) -> (String, BTreeSet<String>) {
+    if rng.chance(1, 12) {
+        return gen_window_case(rng);
+    }
     if rng.chance(1, 10) {
         return gen_chain_case(rng);
     }
@@ -3580,6 +3701,17 @@ fn gen_all(rng: &mut Rng, tier: Tier) -> Vec<Case> {
     };
     let mut rrng = rng.fork("rules");
     let rule_cases: Vec<Case> = (0..nrules).map(|_| gen_rule_case(&mut rrng)).collect();
+    // operators no chosen plan of this run holds (the cost model decides which operators the pair runs ever see;
+    // the jop cases run the join operators whatever it says)
+    let never: Vec<String> = if facts.is_empty() {
+        vec![]
+    } else {
+        ["SeqScan", "IndexScan", "Filter", "Project", "NLJoin", "HashJoin", "MergeJoin", "HashAggregate", "Sort", "Limit", "Distinct", "Materialize"]
+            .iter()
+            .filter(|n| !facts.iter().any(|f| f.contains_key(&format!("op.{}", n))))
+            .map(|n| format!("m.op-never-chosen.{}", n))
+            .collect()
+    };
     let mut all: Vec<Case> = lines
         .into_iter()
         .enumerate()
@@ -3592,6 +3724,9 @@ fn gen_all(rng: &mut Rng, tier: Tier) -> Vec<Case> {
                         tags.push(format!("m.{}", k));
                     }
                 }
+            }
+            if i == 0 {
+                tags.extend(never.iter().cloned());
             }
             tags.push("nt".into());
             Case { line, tags }
